@@ -43,6 +43,8 @@ def cases(tier, seed):
     for who in ('requestor', 'acceptor'):
         for when in ('before', 'between'):
             yield {'kind': 'release', 'who': who, 'when': when, 'bound': bound}
+    # the requestor releases while the acceptor still owes it a response (request and A-RELEASE-RQ back to back)
+    yield {'kind': 'release', 'who': 'requestor', 'when': 'during', 'bound': bound, 'count_all': True}
     for when in ('before', 'between'):
         yield {'kind': 'exception-exit', 'when': when, 'bound': bound}
 
@@ -140,6 +142,14 @@ def make_scenario(case, obs):
                         if when == 'between':
                             results['echo1'] = int(echo(1))
                         raise UserError('user code failed')
+                    if kind == 'release' and case['who'] == 'requestor' and when == 'during':
+                        from pynetdicom2 import dimsemessages
+                        rq = dimsemessages.CEchoRQMessage()
+                        rq.message_id = 1
+                        rq.sop_class_uid = VERIF
+                        asce.send(rq, [k for k, v in asce.accepted_contexts.items() if str(v.sop_class) == VERIF][0])
+                        results['client'] = 'leaving-normally'
+                        return
                     if kind == 'release' and case['who'] == 'requestor':
                         if when == 'between':
                             results['echo1'] = int(echo(1))
@@ -265,6 +275,8 @@ def judge(case, out):
             viol.append((sig + ':wire', 'releasing side sent %r, other side %r: expected exactly one A-RELEASE-RQ and no A-ABORT (%s)' % (mine, other, where)))
         if who == 'requestor' and other.count('A-RELEASE-RP') != 1:
             viol.append((sig + ':no-release-rp', 'the released side answered %r (%s)' % (other, where)))
+        if who == 'requestor' and case['when'] == 'during' and other.count('P-DATA-TF') != 1:
+            viol.append((sig + ':response-lost', 'the request sent just before the release was answered with %r (%s)' % (other, where)))
         if who == 'requestor':
             if case['when'] == 'between' and r.get('srv_seen') != ('AssociationReleasedError', None, None):
                 viol.append((sig + ':error-type', 'the acceptor side saw %r, expected AssociationReleasedError (%s)' % (r.get('srv_seen'), where)))
@@ -308,7 +320,7 @@ def run_case(case):
         if v and first_bad[0] is None:
             first_bad[0] = list(out.choices)
         viol.extend(v)
-    stats = e3.explore(sc, case['bound'], on, max_exec=20000)
+    stats = e3.explore(sc, case['bound'], on, max_exec=20000, count_all=bool(case.get('count_all')))
     # determinism: the default schedule replayed must give the same trace
     a, b = e3.execute(sc, []), e3.execute(sc, [])
     if a.points != b.points or a.results != b.results:
